@@ -73,6 +73,14 @@ CLAIMS = {
         note="A1 with relative tolerance 2^-48 (365.25/7 is not a float); factors read from GEP-4; naming convention parsed by an independent suffix parser; dags.rename_arguments trusted; API cross-unit run is a bounded stand-in",
         ref="7 C13",
     ),
+    "C14": dict(
+        engine="E3 frame",
+        level="proof",
+        technique="contract-based verification of frame conditions: modular may-alias / effect inference on the real ASTs (param / global / fresh / unknown, self + 2-level reach, flow-sensitive, fix-point over the call graph) checks each function's frame contract against callee frames; global-state, memoisation and determinism census; bounded API histories vs. a fresh interpreter",
+        text="compute_taxes_and_transfers assigns nothing reachable from its arguments or module state; the loader entry points write no module state; all 400+ rules, kernels and converters are pure; make_vectorizable creates fresh objects only; module-level state is written only by import-time decoration and set_array_backend; no memoisation, no source of non-determinism; no unknown callee. 491 obligations. History independence beyond the frames is backed by bounded seeded API histories compared with a fresh process (stated as bounded).",
+        note="E3 is a conservative syntactic checker, not a separation-logic proof; pure list of library calls assumed; no monkey-patching; JAX back end out of scope; termination not verified",
+        ref="7 C14",
+    ),
     "C15": dict(
         engine=E1,
         level="proof",
@@ -108,6 +116,7 @@ CLAIMS = {
 }
 
 ENGINES_EXTRA = [
+    {"name": "E3 frame", "path": "vt/frame.py", "serves_properties": ["C14", "C06", "C04", "C05"], "kind_free_text": "modular may-alias and effect inference on module ASTs; frame contracts (assigns / result may alias / global writers)"},
     {"name": "E4 symdate", "path": "vt/symdate.py", "serves_properties": ["C07"], "kind_free_text": "interval-valued datetime.date subclass driving the real YAML loader; exhaustive case split over all calendar days"},
     {"name": "E2 loopvc", "path": "vt/loopvc.py", "serves_properties": ["C11", "C12"], "kind_free_text": "weakest-precondition style VC generation for loops over arrays/dicts/lists from the real AST, invariants from sidecar contracts (contracts/groupings.py), z3 arrays + quantifiers, unbounded N"},
 ]
@@ -128,7 +137,7 @@ man = {
     },
     "engines": ENGINES + ENGINES_EXTRA,
     "checks": [],
-    "notes": "Contract-based deductive verification with self-generated verification conditions (no Python verifier exists in the sandbox). See DESIGN.md. fix: commits in /repo: be15bcc (C03 dtype), 27f9d05 (C10/C07 rounding offset), 9be6802 and 4b2a097 (C08), 1d11443 (C12/C01 fg_id step-children), c6dddf1 (C09/C14 make_vectorizable).",
+    "notes": "Contract-based deductive verification with self-generated verification conditions (no Python verifier exists in the sandbox). See DESIGN.md. fix: commits in /repo: be15bcc (C03 dtype), 27f9d05 (C10/C07 rounding offset), 9be6802 and 4b2a097 (C08), 1d11443 (C12/C01 fg_id step-children), c6dddf1 (C09/C14 make_vectorizable), b8501d0 (C14 caller's data dict).",
     "not_applicable": [],
 }
 for p in props:
